@@ -13,13 +13,38 @@ LOOKUP = "nomt::overlay::LiveOverlay::value"
 STORE_READS = ("nomt::store::Store::load_value", "nomt::beatree::ReadTransaction::lookup", "nomt::beatree::ReadTransaction::lookup_async", "nomt::beatree::ReadTransaction::lookup_blocking")
 
 
+def lookups(facts):
+    """LiveOverlay::value and the Option-returning methods of LiveOverlay that hand its answer on (`read_value(key)` =
+    `self.value(key).map(..)`): None still means "the chain says nothing about the key" """
+    out = {LOOKUP}
+    for i, b in facts.bodies.items():
+        if not i.startswith("nomt::overlay::LiveOverlay::") or b.kind == "Closure" or i == LOOKUP or not b.local_ty(0).startswith("core::option::Option<"):
+            continue
+        if not any(t.get("callee") == LOOKUP for _bb, t in b.calls()):
+            continue
+        # the returned Option is the lookup's, through variant-preserving plumbing
+        work, seen, ok = [{"k": "copy", "pl": {"l": 0}}], 0, False
+        while work and seen < 8 and not ok:
+            cur = work.pop()
+            seen += 1
+            for r in trace(b, cur):
+                if r.kind in ("call", "via") and str(r.what) == LOOKUP:
+                    ok = True
+                elif r.kind in ("call", "via") and r.obj is not None and r.obj.get("args") and str(r.what).startswith("core::option::Option") and str(r.what).rsplit("::", 1)[-1] in ("map", "cloned", "copied", "as_ref", "as_deref", "inspect"):
+                    work.append(r.obj["args"][0])
+        if ok:
+            out.add(i)
+    return out
+
+
 def run(facts, rep):
     n = 0
     users = 0
+    LOOKS = lookups(facts)
     for body in facts.bodies.values():
-        if body.crate != "nomt" or "::tests::" in body.id:
+        if body.crate != "nomt" or "::tests::" in body.id or body.id in LOOKS:
             continue
-        looks = [b for b, t in body.calls() if t.get("callee") == LOOKUP and not body.is_cleanup(b)]
+        looks = [b for b, t in body.calls() if t.get("callee") in LOOKS and not body.is_cleanup(b)]
         if not looks:
             continue
         reads = [(b, t) for b, t in body.calls() if (t.get("callee") or "") in STORE_READS and not body.is_cleanup(b)]
